@@ -251,7 +251,8 @@ def _tet_rule(res, fn):
             if n.id in env:
                 return env[n.id]
             if n.id in vol_names:
-                return Poly.atom("V")
+                v_ = ev(outer_assigns[n.id])              # det / 6, a bare determinant (6 V), ...: the factor is read, not assumed
+                return v_ if v_ is not None else Poly.atom("V")
             if n.id in outer_assigns and n.id not in local_ti:
                 return ev(outer_assigns[n.id])                # e.g. weights = volumes / 20 hoisted out of the integrator
             return None
@@ -262,6 +263,10 @@ def _tet_rule(res, fn):
             return p[0] * p[1] if p else None
         if isinstance(n, ast.Call) and ast.unparse(n.func) == "np.sum":
             return ev(n.args[0])
+        if isinstance(n, ast.Call) and ast.unparse(n.func).endswith("linalg.det"):
+            return Poly.atom("V") * Poly.const(6)         # the determinant of the three corners is six times the signed volume
+        if isinstance(n, ast.Call) and ast.unparse(n.func) in ("np.abs", "abs", "np.absolute") and n.args:
+            return ev(n.args[0])                          # (losing the sign is DET-SIGN's finding, not this rule's)
         if isinstance(n, ast.BinOp):
             l, r = ev(n.left), ev(n.right)
             if l is None or r is None:
